@@ -505,6 +505,8 @@ def _feed(res: C.Result, cases: List[Dict[str, Any]], start: int):
         res.note_case((case["cls"], tuple(map(str, case["path"])), case["field"], case["key"], repr(case["val"]), case["en"],
                        bytes(case["fill"] or b"")), nontrivial=True)
         res.traces_validated += 1
+        for h in r["props"].get("HYPS", []):
+            ex["round_hyp_instances_evaluated"] = ex.get("round_hyp_instances_evaluated", 0) + int(h)
         ex.setdefault("generator", {}).setdefault(case["gen"], 0)
         ex["generator"][case["gen"]] += 1
         ex.setdefault("outcomes", {}).setdefault(info["outcome"], 0)
@@ -518,7 +520,8 @@ def _feed(res: C.Result, cases: List[Dict[str, Any]], start: int):
             ex["disabled_partial_writes_seen"] = ex.get("disabled_partial_writes_seen", 0) + 1
         rc = {"case": _pack(case), "protocol": blk}
         for d in r["corr"]:
-            proj = "readField" if "[readField]" in d else "message" if "[message]" in d else "canon" if "[canon]" in d else "setField"
+            proj = ("readField" if "[readField]" in d else "message" if "[message]" in d else "canon" if "[canon]" in d
+                    else "roundHyp" if "[roundHyp]" in d else "setField")
             ex.setdefault("corr_diffs_by_projection", {}).setdefault(proj, 0)
             ex["corr_diffs_by_projection"][proj] += 1
             res.corr_diffs.append({"name": "corr:M4/" + proj, "diff": d, "case": rc})
